@@ -379,7 +379,12 @@ def edits_consumed(db, ctx):
         raise AnchorMissing("resolve_edits: loop over the pending edits")
     n, (it, pat, body) = loops[0]
     itx = peel(it)
-    drains = itx.get("k") == "MethodCall" and itx.get("method") == "drain" and local_name(itx["recv"]) == "edits" and "RangeFull" in render(itx["args"][0])
+    from ..db import param_roles, is_local
+    from .C08 import _EDIT_ROLES
+    R_ = param_roles(f, _EDIT_ROLES)
+    if "edits" not in R_:
+        raise AnchorMissing("resolve_edits: the &mut Vec<ReplaceOp> parameter")
+    drains = itx.get("k") == "MethodCall" and itx.get("method") == "drain" and is_local(itx["recv"], R_["edits"]) and "RangeFull" in render(itx["args"][0])
     rets = [x for x, _ in walk(body) if x.get("k") == "Ret"]
     if drains:
         ok = True
@@ -395,7 +400,7 @@ def edits_consumed(db, ctx):
                         e = st.get("e") or {}
                         if e is r:
                             break
-                        if e.get("k") == "MethodCall" and e.get("method") == "clear" and local_name(e["recv"]) == "edits":
+                        if e.get("k") == "MethodCall" and e.get("method") == "clear" and is_local(e["recv"], R_["edits"]):
                             cleared = True
             ok = ok and cleared
         how = "iterated by reference with %d early return(s) inside the loop; each preceded by edits.clear(): %s" % (len(rets), ok)
